@@ -1,0 +1,26 @@
+//go:build verif
+
+package server
+
+import "perkeep.org/pkg/blob"
+
+// VerifWake wakes the sync loop the way an arriving blob does. It exists only
+// under the "verif" build tag, for the verification harness in /verif, so that
+// a retry round does not have to wait for queueSyncInterval.
+func (sh *SyncHandler) VerifWake() {
+	select {
+	case sh.wakec <- true:
+	default:
+	}
+}
+
+// VerifPending reports the blobs in the in-memory pending list and the number
+// of copies in flight. It exists only under the "verif" build tag.
+func (sh *SyncHandler) VerifPending() (need []blob.Ref, copying int) {
+	sh.mu.Lock()
+	defer sh.mu.Unlock()
+	for br := range sh.needCopy {
+		need = append(need, br)
+	}
+	return need, len(sh.copying)
+}
